@@ -11,7 +11,10 @@ Line-protocol driver for C06: one function per line (all naturals, separated by 
       8 assumeNull v _ | 9 assumeOk v _
     argument kinds: 0 borrowed | 1 optional
 
-Answer per line: `ok` (checkFunc = true), `bad` (checkFunc = false) or `parse-error`.
+A line is `0 <function>` (verify) or `1 nnull v* nchoices (afterOps edge afterEdge)* <function>` (replay a witness).
+Answer per line: `ok` (checkFunc = true) / `bad` (checkFunc = false); `replay-ok` (the path exists in the concrete
+semantics from the initial state with the listed optional arguments NULL and ends in an unsafe block entry) /
+`replay-fail`; or `parse-error`.
 -/
 open Own
 
@@ -84,14 +87,40 @@ def readFunc : P FuncIR := do
   let blocks ← readBlocks nb
   pure { nvars := nvars, args := args, blocks := blocks.toArray }
 
+def readNats : Nat → P (List Nat)
+  | 0 => pure []
+  | n + 1 => do let x ← next; let rest ← readNats n; pure (x :: rest)
+
+def readChoices : Nat → P (List Choice)
+  | 0 => pure []
+  | n + 1 => do
+    let a ← next; let b ← next; let c ← next
+    let rest ← readChoices n
+    pure (⟨a, b, c⟩ :: rest)
+
+def readWitness : P (List Var × List Choice) := do
+  let nn ← next
+  let nulls ← readNats nn
+  let nc ← next
+  let w ← readChoices nc
+  pure (nulls, w)
+
 def step (line : String) : String :=
   let toks := (line.splitOn " ").filter (fun t => !t.isEmpty)
   let nums := toks.filterMap (fun t => t.trimAscii.toString.toNat?)
   if nums.length != toks.length || nums.isEmpty then "parse-error"
   else
-    let (f, rest) := readFunc.run nums
-    if !rest.isEmpty then "parse-error"
-    else if checkFunc f then "ok" else "bad"
+    match nums with
+    | 0 :: body =>
+      let (f, rest) := readFunc.run body
+      if !rest.isEmpty then "parse-error"
+      else if checkFunc f then "ok" else "bad"
+    | 1 :: body =>
+      let ((nulls, w), rest1) := readWitness.run body
+      let (f, rest) := readFunc.run rest1
+      if !rest.isEmpty then "parse-error"
+      else if replayFrom f w 0 (initStateWith f nulls) then "replay-ok" else "replay-fail"
+    | _ => "parse-error"
 
 partial def loop (h : IO.FS.Stream) : IO Unit := do
   let line ← h.getLine
